@@ -1,0 +1,40 @@
+//go:build verif
+
+package main
+
+// Contracts for the deductive verifier in /verif (govc). Comment-only: no code is added.
+
+//@ scope params.go
+
+// ---- C16: time range and step flags
+
+//@ func defaultStep
+//@   pure
+//@   realfloat
+//@   ensures[at-least-1s] ret0 >= time.Second
+
+//@ func parseDuration
+//@   ensures[positive] ret1 == nil ==> ret0 > 0
+
+//@ func parseStep
+//@   ensures[positive] ret1 == nil ==> ret0 > 0
+//@   ensures[default]  !param.Set ==> ret1 == nil && ret0 == defaultStep(start, end)
+
+//@ func parseTimestamp
+//@   ensures[default] lt == "" ==> ret1 == nil && ret0 == def
+
+//@ func parseTimeRange
+//@   capture pe = call(parseTimestamp, 0)
+//@   capture ps = call(parseTimestamp, 1)
+//@   ensures[end-default-now]   pe_called ==> pe_a1 == now && pe_a0 == endParam.Or("")
+//@   ensures[end-result]        err == nil ==> pe_called && end == pe_r0
+//@   ensures[start-result]      err == nil ==> ps_called && start == ps_r0 && ps_a0 == startParam.Or("")
+//@   ensures[start-default-6h]  ps_called && !sinceParam.Set ==> ps_a1 == ite(pe_r0.After(now), now, pe_r0).Add(-6*time.Hour)
+//@   ensures[errors-surface]    (pe_called && pe_r1 != nil) || (ps_called && ps_r1 != nil) ==> err != nil
+
+// ---- C15: rendering
+
+//@ global names invariant len(names) == 8
+
+//@ func renderResult
+//@   nopanic
